@@ -74,9 +74,31 @@ def check_C15(tier):
         want = "x.txt.y.csv.my_proc.p0_z.p1_5.aa.lane_l3.aa.site_s9.aa.who_me.bb.run_r1.res.tsv"
         if names != {want}:
             print("DRIFT: default output name %r differs from the transcription %r" % (names, want), flush=True)
+    # default names of a process with several out-ports: each port's name is built from ITS port name and extension
+    mreq = dict(op="expand", proc="multi", cmd="tool {i:in} > {o:res|.tsv} 2> {o:log|.txt} 3> {o:aux}", outs={}, ins={"in": "d/x.txt"}, params={}, tags={})
+    seen = set()
+    for rep in range(4):
+        for a in call_probe([mreq] * 4):
+            chk.evaluations += 1
+            seen.add(json.dumps(a.get("outs", {}), sort_keys=True))
+    want = {"res": "x.txt.multi.res.tsv", "log": "x.txt.multi.log.txt", "aux": "x.txt.multi.aux"}
+    for sj in sorted(seen):
+        got = json.loads(sj)
+        bad = [k for k in want if not (str(got.get(k, "")).endswith(want[k].split("multi.")[1]) and "multi" in str(got.get(k, "")))]
+        if bad or len(set(got.values())) != len(want):
+            chk.violation("default output names of a process with out-ports res|.tsv, log|.txt, aux do not carry their own port name / extension: %s" % sj, dict(request=mreq, answer=got)); break
+        elif got != want:
+            print("DRIFT: default output names %r differ from the transcription %r" % (got, want), flush=True)
+    else:
+        chk.nontrivial.add("default-names:3 ports")
+    if len(seen) > 1:
+        chk.violation("default output names of a 3-out-port process change between evaluations: %s" % sorted(seen)[:3], dict(request=mreq))
     # missing values stop the program instead of producing an empty / unreplaced placeholder
     for label, q in (("parameter", dict(op="expand", cmd="echo {p:v} > {o:out}", outs={"out": "o.txt"}, ins={}, params={}, tags={})),
                      ("tag", dict(op="expand", cmd="echo {t:g} > {o:out}", outs={"out": "o.txt"}, ins={}, params={}, tags={})),
+                     ("parameter (received value is the empty string)", dict(op="expand", cmd="echo {p:v} > {o:out}", outs={"out": "o.txt"}, ins={}, params={"v": ""}, tags={})),
+                     ("tag (empty string)", dict(op="expand", cmd="echo {t:g} > {o:out}", outs={"out": "o.txt"}, ins={}, params={}, tags={"g": ""})),
+                     ("parameter (empty string) under a modifier", dict(op="expand", cmd="echo {p:v|basename} > {o:out}", outs={"out": "o.txt"}, ins={}, params={"v": ""}, tags={})),
                      ("in-port", dict(op="expand", cmd="cat {i:in} > {o:out}", outs={"out": "o.txt"}, ins={}, params={}, tags={})),
                      ("parameter in an output path", dict(op="expand", cmd="echo x > {o:out}", outs={"out": "o_{p:v}.txt"}, ins={}, params={}, tags={}))):
         died, out = dies(q)
